@@ -143,13 +143,16 @@ fn seg(s: &syn::PathSegment) -> Option<String> {
     match &s.arguments {
         syn::PathArguments::None => Some(format!("(seg {id})")),
         syn::PathArguments::AngleBracketed(a) => {
-            if a.colon2_token.is_some() || a.args.is_empty() {
+            if a.colon2_token.is_some() || a.args.is_empty() || a.args.trailing_punct() {
                 return None;
             }
             let args: Option<Vec<String>> = a.args.iter().map(garg).collect();
             Some(format!("(seg {id} {})", args?.join(" ")))
         }
         syn::PathArguments::Parenthesized(p) => {
+            if p.inputs.trailing_punct() {
+                return None;
+            }
             let ins: Option<Vec<String>> = p.inputs.iter().map(ty).collect();
             let ret = match &p.output {
                 syn::ReturnType::Default => "none".to_string(),
@@ -198,11 +201,14 @@ pub fn ty(t: &syn::Type) -> Option<String> {
         syn::Type::Slice(s) => Some(format!("(slice {})", ty(&s.elem)?)),
         syn::Type::Array(a) => Some(format!("(array {} {})", ty(&a.elem)?, cexpr(&a.len)?)),
         syn::Type::Tuple(t) => {
+            if t.elems.len() != 1 && t.elems.trailing_punct() {
+                return None; // `(A, B,)`: the model prints tuples without a trailing comma
+            }
             let v: Option<Vec<String>> = t.elems.iter().map(ty).collect();
             Some(format!("(tuple {})", v?.join(" ")))
         }
         syn::Type::BareFn(f) => {
-            if f.variadic.is_some() || f.inputs.iter().any(|a| a.name.is_some() || !a.attrs.is_empty()) {
+            if f.variadic.is_some() || f.inputs.trailing_punct() || f.inputs.iter().any(|a| a.name.is_some() || !a.attrs.is_empty()) {
                 return None;
             }
             let ins: Option<Vec<String>> = f.inputs.iter().map(|a| ty(&a.ty)).collect();
@@ -258,6 +264,9 @@ fn tbound(bd: &syn::TypeParamBound) -> Option<String> {
             let lts = match &t.lifetimes {
                 None => vec![],
                 Some(bl) => {
+                    if bl.lifetimes.trailing_punct() || bl.lifetimes.is_empty() {
+                        return None;
+                    }
                     let mut v = vec![];
                     for p in &bl.lifetimes {
                         match p {
@@ -280,6 +289,9 @@ fn tbounds<'a>(it: impl Iterator<Item = &'a syn::TypeParamBound>) -> Option<Stri
 fn for_lts(bl: &Option<syn::BoundLifetimes>) -> Option<String> {
     let mut v = vec![];
     if let Some(bl) = bl {
+        if bl.lifetimes.trailing_punct() {
+            return None;
+        }
         for p in &bl.lifetimes {
             match p {
                 syn::GenericParam::Lifetime(l) if l.bounds.is_empty() && l.attrs.is_empty() => v.push(lt(&l.lifetime)),
